@@ -457,12 +457,27 @@ pub fn roundtrip() -> Report {
             if idx.lookup_token(10, 5).map(|t| t.get_src()) != iback.lookup_token(10, 5).map(|t| t.get_src()) || idx.lookup_token(21, 9).map(|t| t.get_src()) != iback.lookup_token(21, 9).map(|t| t.get_src()) { return r("roundtrip", bound, cases, Some("index lookups change on write/read".into())); }
         } } } }
     }
-    // top-level Hermes maps: null metadata before / after function maps, a function map without names
+    // in-place updates under a source root, then write / read: the reader must see what the in-memory map shows
+    for root in [None, Some("r"), Some("/abs/"), Some("")] { for order in 0..3 {
+        cases += 1;
+        let mut b = SourceMapBuilder::new(Some("f.js"));
+        b.add(0, 0, 0, 0, Some("a.js"), Some("n"), false); b.add(0, 5, 1, 0, Some("b.js"), None, false);
+        let mut sm = b.into_sourcemap();
+        match order { 0 => { sm.set_source_root(root); sm.set_source(1, "new.js"); sm.set_source_contents(0, Some("text")); }
+                      1 => { sm.set_source(1, "new.js"); sm.set_source_root(root); sm.set_source_contents(1, Some("text")); }
+                      _ => { sm.set_source_root(Some("old")); sm.set_source(0, "x.js"); sm.set_source_root(root); sm.set_source(1, "new.js"); } }
+        let mut out = vec![]; sm.to_writer(&mut out).ok();
+        let back = match guarded(|| SourceMap::from_slice(&out)) { Ok(Ok(m)) => m, o => return r("roundtrip", bound, cases, Some(format!("map after set_source under root {root:?} does not decode again: {:?}", o.map(|x| x.map(|_| ())))) ) };
+        let srcs = |m: &SourceMap| (m.sources().map(|s| s.to_string()).collect::<Vec<_>>(), m.tokens().map(|t| t.get_source().map(|s| s.to_string())).collect::<Vec<_>>(), (0..m.get_source_count()).map(|i| m.get_source_contents(i).map(|s| s.to_string())).collect::<Vec<_>>());
+        if srcs(&sm) != srcs(&back) { return r("roundtrip", bound, cases, Some(format!("root {root:?}, update order #{order}: the map shows {:?}, after write/read {:?}", srcs(&sm), srcs(&back)))); }
+    } }
+    // top-level Hermes maps: null metadata before / after function maps, a function map without names, no function map at all
     {
         use sourcemap::decode_slice;
         for metas in [r#"[null,[{"names":["<global>","foo"],"mappings":"AAA,GCA"}],[{"names":["<global>","bar"],"mappings":"AAA,KCA"}]]"#,
                       r#"[[{"names":["<global>","foo"],"mappings":"AAA,GCA"}],null,[{"names":[],"mappings":"AAA"}]]"#,
-                      r#"[[{"names":[],"mappings":"AAA"}],[{"names":["<global>","bar"],"mappings":"AAA,KCA"}],null]"#] {
+                      r#"[[{"names":[],"mappings":"AAA"}],[{"names":["<global>","bar"],"mappings":"AAA,KCA"}],null]"#,
+                      r#"[null,null,null]"#, r#"[]"#, r#"[null]"#] {
             cases += 1;
             let doc = format!(r#"{{"version":3,"sources":["a.js","b.js","c.js"],"names":[],"mappings":"AAAA,UCAA,UCAA","x_facebook_sources":{metas}}}"#);
             let h = match guarded(|| decode_slice(doc.as_bytes())) { Ok(Ok(DecodedMap::Hermes(h))) => h, o => return r("roundtrip", bound, cases, Some(format!("Hermes document {doc} does not decode as a Hermes map: {:?}", o.map(|x| x.map(|_| ()).map_err(|e| e.to_string()))))) };
